@@ -1,4 +1,5 @@
 """C20 Build configurations"""
+import eeval
 import ecfg
 import eunits
 
@@ -29,4 +30,8 @@ def run(ctx):
     ecfg.run_config(ctx, "ws", deep=True)
     for c in (ALL if ctx.tier == "thorough" else QUICK):
         ecfg.run_config(ctx, c, deep=("nocache" not in c))
+    ctx.explain("E-WRAP.delegate: the multi-threaded function types forward the non-recursive operations (constructors, eval, "
+                "sat_count, pick_cube*) to the sequential type: the item of the same name with the parameters in order.")
+    nd = eeval.check_mt_delegations(ctx, F)
+    ctx.floor("E-WRAP.delegate", "forwarding methods of the MT function types", nd, 15)
     ctx.not_decided = "observational equivalence of results and node counts across configurations"
